@@ -90,4 +90,8 @@ def run(ctx):
         "JSON representability of labels / metadata and the tokenisation of .hgr lines are not decided",
         "the HIF reader is checked for call conformance only (see the known finding on directed HIF documents)",
     ]
+    with res.guard("general lint pack over the property's files"):
+        from ..lints import check_pack
+
+        check_pack(ctx, res, "C06")
     return res
